@@ -261,6 +261,51 @@ fn long_token_text(d: &mut Dec) -> String {
     }
 }
 
+/// `@key: <unary prefixes><boundary literal>;` in every metadata position (top level, list, map, @name)
+fn metadata_value_text(d: &mut Dec) -> String {
+    let lit = *d.pick(&[
+        "i-170141183460469231731687303715884105728",
+        "i170141183460469231731687303715884105727",
+        "d79228162514264337593543950335",
+        "d-79228162514264337593543950335",
+        "f1e999",
+        "f-0",
+        "i0",
+        "\"s\"",
+        "none",
+        "true",
+    ]);
+    let pre = *d.pick(&["", "-", "--", "- -", "!", "-!", "!-", "- - -"]);
+    let v = format!("{pre}{lit}");
+    let key = *d.pick(&["k", "name", "description", "priority"]);
+    let item = match d.below(4) {
+        0 => format!("@{key}: {v};"),
+        1 => format!("@{key}: [{v}, i1];"),
+        2 => format!("@{key}: {{a: {v}}};"),
+        _ => format!("@{key}: [[{{a: [{v}]}}]];"),
+    };
+    let nl = *d.pick(&["\n", "\r\n", " "]);
+    format!("// n{nl}{item}{nl}{v}")
+}
+
+/// several CR LF terminated lines with non-ASCII text, then a syntax error (error positions are computed from the text)
+fn crlf_error_text(d: &mut Dec) -> String {
+    let nlines = 1 + d.below(6);
+    let nl = *d.pick(&["\r\n", "\r\n", "\n", "\r"]);
+    let mut t = String::new();
+    for _ in 0..nlines {
+        let words = 1 + d.below(4);
+        t.push_str("//");
+        for _ in 0..words {
+            t.push(' ');
+            t.push_str(*d.pick(&["rule", "café", "ünï", "€", "日本語", "x", "naïve", "😀"]));
+        }
+        t.push_str(nl);
+    }
+    t.push_str(*d.pick(&["amount >* i10", "a + ", "i1 i2", "[a,, b]", "if a then", "a . . b", "\"é\" \"é\"", "a é b", "a + b"]));
+    t
+}
+
 fn rule_wrap(d: &mut Dec, text: String) -> String {
     match d.below(6) {
         0 => format!("// name\n{text}"),
@@ -274,8 +319,10 @@ fn rule_wrap(d: &mut Dec, text: String) -> String {
 
 pub fn random_text(bytes: &[u8]) -> (String, &'static str, bool) {
     let mut d = Dec::new(bytes);
-    let (t, class, nt) = match d.below(9) {
+    let (t, class, nt) = match d.below(11) {
         8 => (long_token_text(&mut d), "long-token", true),
+        9 => (metadata_value_text(&mut d), "metadata-value", true),
+        10 => (crlf_error_text(&mut d), "crlf-error", true),
         0 | 1 => {
             let (t, m) = mutated_text(&mut d);
             (t, "mutated", m)
